@@ -42,27 +42,27 @@ _DOC_TEXT = ('Bounded symbolic checking of the real editing API on parsed scaffo
              'each branch; the oracle is independent (%s).')
 
 PROPERTIES['C10'] = {
-    'modules': ['harness.rep_ops', 'harness.view_ops'], 'budget': {'quick': 900, 'thorough': 3300},
+    'modules': ['harness.rep_ops', 'harness.view_ops', 'harness.slot_ops'], 'budget': {'quick': 900, 'thorough': 3300},
     'level_text': _DOC_TEXT % 'a plain Python list subjected to the same operation; every filtered/converted view recomputed from it',
     'level_note': _DOC_NOTE,
 }
 PROPERTIES['C03'] = {
-    'modules': ['harness.rep_ops', 'harness.view_ops'], 'budget': {'quick': 900, 'thorough': 3300},
+    'modules': ['harness.rep_ops', 'harness.view_ops', 'harness.slot_ops'], 'budget': {'quick': 900, 'thorough': 3300},
     'level_text': _DOC_TEXT % 'token-identity window between snapshots: only the child and adjacent separators may change, inside the parent',
     'level_note': _DOC_NOTE,
 }
 PROPERTIES['C05'] = {
-    'modules': ['harness.rep_ops', 'harness.view_ops', 'harness.c17_spacing', 'harness.claim_hist'], 'budget': {'quick': 900, 'thorough': 3300},
+    'modules': ['harness.rep_ops', 'harness.view_ops', 'harness.c17_spacing', 'harness.claim_hist', 'harness.slot_ops'], 'budget': {'quick': 900, 'thorough': 3300},
     'level_text': _DOC_TEXT % 'a generic walker over the field descriptors checking store membership, span nesting/order/disjointness and leaf ownership',
     'level_note': _DOC_NOTE,
 }
 PROPERTIES['C06'] = {
-    'modules': ['harness.rep_ops', 'harness.view_ops'], 'budget': {'quick': 900, 'thorough': 3300},
+    'modules': ['harness.rep_ops', 'harness.view_ops', 'harness.slot_ops'], 'budget': {'quick': 900, 'thorough': 3300},
     'level_text': _DOC_TEXT % 're-parse of the printed text compared with a semantic dump of the edited model',
     'level_note': _DOC_NOTE + ' The re-parse speaks for the concrete text of each path.',
 }
 PROPERTIES['C19'] = {
-    'modules': ['harness.rep_ops', 'harness.view_ops', 'harness.c09_values', 'harness.c07_store'], 'budget': {'quick': 900, 'thorough': 3300},
+    'modules': ['harness.rep_ops', 'harness.view_ops', 'harness.c09_values', 'harness.c07_store', 'harness.slot_ops'], 'budget': {'quick': 900, 'thorough': 3300},
     'level_text': _DOC_TEXT % 'text, token identities and identity-level tree dump before vs after every refused call',
     'level_note': _DOC_NOTE,
 }
